@@ -124,3 +124,23 @@ func TestC07EventsRace(t *testing.T) {
 		Gen:         genC07Ev, Run: runC07Ev,
 	})
 }
+
+func eventsRaceProp(t *testing.T, id, oracle string) {
+	curT = t
+	vrt.Check(t, vrt.Prop[C07EvCase]{
+		ID: id, Name: "eventsrace",
+		Rule: "the histories of C07/eventsrace (50..600 back-to-back blocking reports while 1..4 goroutines drain Events(), all inside one synctest bubble whose goroutines run in parallel); " +
+			"oracle (" + id + "'s clauses): " + oracle + "; " +
+			"non-trivial = at least one version was received from Events; distinct = distinct case JSON (the schedule is sampled)",
+		Assumptions: []string{"see C07/eventsrace"},
+		Gen:         genC07Ev, Run: runC07Ev,
+	})
+}
+
+func TestC08EventsRace(t *testing.T) {
+	eventsRaceProp(t, "C08", "no interleaving of reports and Events readers stops the monitor (synctest deadlock detection), nothing panics, and after cancel no goroutine remains")
+}
+
+func TestC05EventsRace(t *testing.T) {
+	eventsRaceProp(t, "C05", "every report is stacked (the view holds report i when report i returns) and no Events reader sees the stream go backwards, whatever the readers' timing")
+}
